@@ -147,7 +147,10 @@ def run_harnesses(repo, hs, jobs=8):
                 detail = "no result for harness (build error or name mismatch)\n" + out[-1500:]
             else:
                 detail = blk[-1500:]
-            res[h["name"]] = {"status": st, "secs": round(hsecs, 1), "detail": detail}
+            mc = re.search(r"\*\* (\d+) of (\d+) failed", blk)
+            mv = re.search(r"\*\* (\d+) of (\d+) cover properties satisfied", blk)
+            res[h["name"]] = {"status": st, "secs": round(hsecs, 1), "detail": detail,
+                              "checks": int(mc.group(2)) if mc else 0, "covers": int(mv.group(1)) if mv else 0}
     finally:
         shutil.rmtree(work, ignore_errors=True)
     return res, cmds
@@ -165,7 +168,8 @@ def setup(repo):
 
 def run_for_property(repo, prop, tier):
     hs = [u for u in units() if prop in u["props"] and (tier == "thorough" or u["tier"] == "quick")]
-    out = {"violations": [], "undecided": [], "obligations": 0, "samples": [], "units": [], "cmds": [], "trusted": []}
+    out = {"violations": [], "undecided": [], "obligations": 0, "samples": [], "units": [], "cmds": [], "trusted": [],
+           "bounded": 0, "cbmc_checks": 0, "covers_hit": 0}
     skipped = [u for u in units() if prop in u["props"] and u not in hs]
     if not hs:
         for u in skipped:
@@ -175,7 +179,12 @@ def run_for_property(repo, prop, tier):
     out["cmds"] = cmds
     for h in hs:
         r = res.get(h["name"], {"status": "undecided", "secs": 0, "detail": "no result"})
-        out["obligations"] += 1
+        if h["kind"] == "complete":
+            out["obligations"] += 1
+        else:
+            out["bounded"] += 1
+        out["cbmc_checks"] += r.get("checks", 0)
+        out["covers_hit"] += r.get("covers", 0)
         out["units"].append({"harness": h["name"], "appended_to": h["target"], "status": r["status"], "kind": h["kind"],
                              "bound": h.get("bound", ""), "secs": r["secs"], "checks_obligation": h["obligation"]})
         out["samples"].append({"obligation": "kani:%s (%s%s) checks %s on the real %s" % (
